@@ -40,14 +40,19 @@ def getStr (o : Obj) (k : Bytes) : Bytes :=
   | some (.str s) => s
   | _ => []
 
-/-- names the event structs give a meaning to -/
+/-- names the event structs (`eventFields`, `eventFormatV1Fields`, `eventFormatV2Fields`) give a meaning to, and
+    the keys stripped on receipt -/
 def structNames : List Bytes := [b!"room_id", b!"sender", b!"type", b!"state_key", b!"content", b!"redacts", b!"depth",
   b!"unsigned", b!"origin_server_ts", b!"event_id", b!"prev_events", b!"auth_events", b!"msc4354_sticky", b!"sticky",
-  b!"hashes", b!"signatures", b!"prev_state", b!"origin", b!"membership", b!"outlier", b!"destinations", b!"age_ts"]
+  b!"outlier", b!"destinations", b!"age_ts"]
 
-/-- Does the event carry a case variant of a name the structs read?  In the event formats with
-    hashed IDs a variant of `event_id` is not counted: C03 demands that it has no influence (the ID
-    is the reference hash), so such events stay inside the specification. -/
+/-- Does the event carry a case variant of a name the event structs read?  (The structs are filled
+    by encoding/json, which matches keys case-insensitively: what such an event "is" is the library's
+    lenient parsing, outside the property's words.)  In the event formats with hashed IDs a variant of
+    `event_id` is not counted: C03 demands that it has no influence (the ID is the reference hash), so
+    such events stay inside the specification.  Variants of names that only the REDACTION keep struct
+    lists (`hashes`, `signatures`, `origin`, `prev_state`, `membership`) are not counted either: redaction
+    compares keys exactly, such a member is an unlisted key like any other. -/
 def hasFoldVariant (format : Nat) (o : Obj) : Bool :=
   o.any (fun kv => structNames.any (fun n =>
     foldBytes n == foldBytes kv.1 && n != kv.1 && !(format != 1 && n == b!"event_id")))
